@@ -11,3 +11,9 @@ import MdVerif.Props.C01b
 #print axioms MdVerif.DocParse2.C01b_span_elem
 #print axioms MdVerif.DocParse2.C01b_span_line
 #print axioms MdVerif.DocParse2.C01_code_span
+#print axioms MdVerif.DocParse2.C01b_em_match
+#print axioms MdVerif.DocParse2.C01b_em_loop
+#print axioms MdVerif.DocParse2.C01b_em_elem
+#print axioms MdVerif.DocParse2.C01b_em_line
+#print axioms MdVerif.DocParse2.C01b_em_print
+#print axioms MdVerif.DocParse2.C01_em_strong
